@@ -376,6 +376,9 @@ func updateSel(cur *Val, sel []int, v *Val) *Val {
 	if len(sel) == 0 {
 		return v
 	}
+	if cur.K == VScalar && cur.T.S == SAny {
+		return cur // store into a field of an opaque value: not modelled
+	}
 	if cur.K != VStruct {
 		panic(unsupported("field store into non-struct cell"))
 	}
@@ -396,6 +399,12 @@ func (x *Exec) loadPath(st *State, p *Path) *Val {
 		}
 		for _, f := range p.Sel {
 			if cur.K != VStruct {
+				if cur.K == VScalar && cur.T.S == SAny {
+					// field of an opaque (external) struct value: unconstrained
+					hv := x.havocVal(p.T, "opaque.field")
+					x.assume(st, x.typeFacts(hv, p.T))
+					return hv
+				}
 				x.unsupported("field load from non-struct cell")
 			}
 			cur = cur.F[f]
@@ -469,6 +478,7 @@ func (x *Exec) execUnOp(st *State, in *ssa.UnOp) {
 			lv := retypeIfNil(x.loadPath(st, v.Path), in.Type())
 			if v.Path.Ref != nil || v.Path.Arr != nil {
 				x.assume(st, x.refFacts(st, lv, in.Type()))
+				x.assume(st, x.typeFacts(lv, in.Type()))
 			}
 			x.setReg(in, lv)
 		case VScalar:
@@ -483,6 +493,7 @@ func (x *Exec) execUnOp(st *State, in *ssa.UnOp) {
 			x.assume(st, tNot(tEq(v.T, intLit(0))))
 			lv := x.loadObj(st, v.T, et, "", et)
 			x.assume(st, x.refFacts(st, lv, et))
+			x.assume(st, x.typeFacts(lv, et))
 			x.setReg(in, lv)
 		default:
 			x.unsupported("load through value kind %d", v.K)
@@ -567,6 +578,7 @@ func (x *Exec) execLookup(st *State, in *ssa.Lookup) {
 		has := x.mapHas(st, mt, base.T, k)
 		x.assumeMapWF(st, mt, base.T, k)
 		x.assume(st, x.refFacts(st, v, mt.Elem()))
+		x.assume(st, x.typeFacts(v, mt.Elem()))
 		if in.CommaOk {
 			x.setReg(in, &Val{K: VTuple, Typ: in.Type(), F: []*Val{v, scalar(has, nil)}})
 		} else {
@@ -695,6 +707,13 @@ func (x *Exec) execSlice(st *State, in *ssa.Slice) {
 					hi = cur.F[2].T
 				}
 				x.setReg(in, x.subSlice(st, cur, lo, hi, in.Type()))
+				return
+			}
+		}
+		if base.Path.Cell != nil && len(base.Path.Sel) == 0 && lo == nil && hi == nil {
+			if cur, ok := st.cells[base.Path.Cell]; ok && cur.K == VScalar && cur.T.S == SStr {
+				// b[:] of a byte array: the same bytes
+				x.setReg(in, scalar(cur.T, in.Type()))
 				return
 			}
 		}
